@@ -79,6 +79,13 @@ impl Numeric {
     pub fn to_rational(&self) -> (BigInt, BigInt) {
         match *self {
             Numeric::Rational(ref rational) => (rational.numer(), rational.denom()),
+            // NaN and infinities aren't rationals; represent them the
+            // way they arise, as n/0.
+            Numeric::Float(x) if x.is_nan() => (BigInt::zero(), BigInt::zero()),
+            Numeric::Float(x) if x.is_infinite() => (
+                BigInt::from(if x > 0.0 { 1i64 } else { -1i64 }),
+                BigInt::zero(),
+            ),
             Numeric::Float(x) => {
                 let rational = BigRat::from(x);
                 (rational.numer(), rational.denom())
